@@ -42,7 +42,12 @@ META = {
             "(C37-F4, repaired, fixed corpus + revert mutant). Include graphs: mj_loadXML through a VFS with several files - chains, trees, diamonds, "
             "self-includes, cycles with an acyclic prefix, cycles through the top file, missing/empty/malformed files, includes with children; oracle "
             "computed from the generated graph alone: cyclic or defective graph => NULL + message, acyclic graph of valid files each included once => "
-            "model, always a return. Include expansion (IncludeXML) is NOT modelled in Coq: oracle and observation only. NOT COVERED: tinyxml2 itself "
+            "model, always a return. Include expansion (IncludeXML) is NOT modelled in Coq: oracle and observation only. Integer attribute types: "
+            "C37_intlist_accepts_iff / C37_intlist_range_rejected (Model/Lex.v read_ints: tokens are [+-]?digit+ literals, accepted iff their VALUE lies "
+            "in the type's range, the returned values are these values - nothing wraps) for every range, arity and text; tied to the real ReadAttr<int> / "
+            "ReadAttr<unsigned char> with returned values on literals around 2^8, 2^31, 2^32, 2^63, 2^64 and beyond, with a python big-integer oracle; "
+            "through the reader: (good, out-of-range) pairs for every kInt attribute of the read table and for hand-read ints (size, numeric size, "
+            "replicate/composite count), and overflowing float literals (1e999, 1e39 for float). NOT COVERED: tinyxml2 itself "
             "(the XML tokenizer under test is the harness shim harness/stubs/tinyxml2_shim.cc), URDF, files/includes/assets on disk, src/xml/mjz, "
             "semantic (non-schema) checks of the reader, numeric value conversion of the lexers (strtod/istream).",
     "note": "Trusted: Coq kernel; hand-written models Model/Schema.v, Model/Lex.v (tied by correspondence on the cases of this run); translator "
@@ -1467,12 +1472,19 @@ def typed_cases(tree, readtab, maps, rng, quick):
                     muts.append(("arity", good, " ".join(["1"] * (n - 1))))
                 if r["kind"] == "kInt":
                     muts.append(("type", good, " ".join(["1"] * (n - 1) + ["1.5x"])))
+            if r["kind"] in ("kInt",) and n is not None:
+                # value range of the attribute type: integer literals outside 32 bits (inside and outside 64 bits) must not be accepted
+                for bv in rng.sample(["2147483648", "-2147483649", "4294967297", "4294967295", "8589934592", "99999999999", "-4294967297",
+                                      "9223372036854775807", "-9223372036854775808", "18446744073709551617"], 2 if quick else 5):
+                    muts.append(("intrange", " ".join(["1"] * n), " ".join(["1"] * (n - 1) + [bv])))
+            if r["kind"] in ("kDouble", "kNum", "kFloat") and n is not None:
+                muts.append(("floatrange", " ".join(["1"] * n), " ".join(["1"] * (n - 1) + [rng.choice(["1e999", "-1e999"]) if r["kind"] != "kFloat" else rng.choice(["1e39", "-3.5e38", "1e999"])])))
             if r["kind"] in ("kInt", "kDouble", "kNum", "kFloat", "kDoubleVec", "kFloatVec", "kIntVec"):
                 # exact-fit / overlong lists: lengths around the fixed-size buffers of the reader (no expectation but "returns")
                 for big in ((rng.choice([501, 5000]),) if not quick else (rng.choice([500, 501, 502, 1000, 5000]),)):
                     muts.append(("longlist", "1", " ".join(["1"] * big)))
-            if quick and len(muts) > 2:
-                muts = rng.sample(muts, 2)
+            if quick and len(muts) > 3:
+                muts = rng.sample(muts, 3)
             for what, gv, bv in muts:
                 def mk(v):
                     attrs = [(a, x) for a, x in base_attrs if a != r["attr"]] + [(r["attr"], v)]
@@ -1482,8 +1494,25 @@ def typed_cases(tree, readtab, maps, rng, quick):
                 if g is None:
                     continue
                 cases.append({"elem": name, "attr": r["attr"], "what": what, "good": g, "bad": b})
-    if quick and len(cases) > 500:
-        cases = rng.sample(cases, 500)
+    if quick and len(cases) > 560:
+        cases = rng.sample(cases, 560)
+    # integer attributes read by hand-written code (not in the typed table): always included
+    HAND = [("size", "nconmax", '<mujoco><size nconmax="%s"/></mujoco>', "5"), ("size", "njmax", '<mujoco><size njmax="%s"/></mujoco>', "5"),
+            ("size", "nstack", '<mujoco><size nstack="%s"/></mujoco>', "5"), ("size", "nuserdata", '<mujoco><size nuserdata="%s"/></mujoco>', "5"),
+            ("size", "nkey", '<mujoco><size nkey="%s"/></mujoco>', "2"), ("size", "nuser_geom", '<mujoco><size nuser_geom="%s"/></mujoco>', "2"),
+            ("numeric", "size", '<mujoco><custom><numeric name="n" size="%s" data="1"/></custom></mujoco>', "3"),
+            ("replicate", "count", '<mujoco><worldbody><replicate count="%s"><geom size="1"/></replicate></worldbody></mujoco>', "2"),
+            ("geom", "contype", '<mujoco><worldbody><geom size="1" contype="%s"/></worldbody></mujoco>', "1"),
+            ("geom", "group", '<mujoco><worldbody><geom size="1" group="%s"/></worldbody></mujoco>', "1"),
+            ("option", "iterations", '<mujoco><option iterations="%s"/></mujoco>', "10"),
+            ("global", "offwidth", '<mujoco><visual><global offwidth="%s"/></visual></mujoco>', "64"),
+            ("texture", "width", '<mujoco><asset><texture name="t" type="2d" builtin="flat" width="%s" height="8"/></asset></mujoco>', "8"),
+            ("composite", "count", '<mujoco><worldbody><body><geom size="1"/><composite type="cable" count="%s 1 1" curve="s" size="1"><geom type="capsule" size=".01"/></composite></body></worldbody></mujoco>', "3"),
+            ("key", "time", '<mujoco><keyframe><key time="%s"/></keyframe></mujoco>', "1")]
+    for (el, at, tpl, good) in HAND:
+        bads = ["4294967297", "2147483648", "-2147483649", "99999999999", "18446744073709551617"] if at != "time" else ["1e999"]
+        for bv in (bads if not quick else rng.sample(bads, min(2, len(bads)))):
+            cases.append({"elem": el, "attr": at, "what": "intrange" if at != "time" else "floatrange", "good": tpl % good, "bad": tpl % bv})
     return cases
 
 
@@ -1518,10 +1547,23 @@ def lexer_tie(ctx, exe, rng, quick, alarm, maps):
         else:
             text = " ".join(toks) if rng.random() < 0.8 or not toks else (" " + toks[0])
         cases.append(("key", "K" if multi else "k", keys, text, toks))
+    # integer lists: literals around the 32-bit and 8-bit limits, beyond 64 bits, signs, leading zeros, malformed
+    INTTOK = ["0", "1", "-1", "+5", "-0", "007", "255", "256", "-2", "2147483647", "-2147483648", "2147483648", "-2147483649",
+              "4294967295", "4294967296", "4294967297", "8589934592", "-4294967295", "99999999999", "9223372036854775807",
+              "-9223372036854775808", "9223372036854775808", "18446744073709551617", "-99999999999999999999999", "1.5", "1e3", "0x10", "12x", "+", "-", "+-1", "1-"]
+    for _ in range(n):
+        byte = rng.random() < 0.3
+        ln = rng.choice([1, 1, 2, 3, 5])
+        exact = rng.random() < 0.5
+        ntok = rng.choice([0, 1, 1, 1, 2, 3, 5, 6])
+        pool = INTTOK if rng.random() < 0.6 else INTTOK[:9]
+        toks = [rng.choice(pool) for _ in range(ntok)]
+        text = (rng.choice(WS) if rng.random() < 0.3 else "") + "".join(t + (rng.choice(WS) if (k + 1 < ntok or rng.random() < 0.3) else "") for k, t in enumerate(toks))
+        cases.append(("int", ("b" if exact else "B") if byte else ("i" if exact else "I"), ln, text, toks))
     cmds = []
     lastkeys = None
     for c in cases:
-        if c[0] == "num":
+        if c[0] in ("num", "int"):
             cmds.append(("LEX %s %d" % (c[1], c[2]), c[3]))
         else:
             if c[2] != lastkeys:
@@ -1542,6 +1584,43 @@ def lexer_tie(ctx, exe, rng, quick, alarm, maps):
         ln = out[p]
         p += 1
         txt = cs(c[3])
+        if c[0] == "int":
+            lo, hi = ((0, 255) if c[1] in "bB" else (-2 ** 31, 2 ** 31 - 1))
+            exact = c[1] in "bi"
+            # independent oracle (python big integers)
+            exp = None
+            vals = []
+            for t in c[4]:
+                if not re.fullmatch(r"[+-]?[0-9]+", t):
+                    exp = "format"
+                    break
+                z = int(t)
+                if not (lo <= z <= hi):
+                    exp = "range"
+                    break
+                vals.append(z)
+            if exp is None:
+                nt = len(vals)
+                exp = "ok" if (nt == 0 or (nt <= c[2] and (not exact or nt == c[2]))) else ("few" if (exact and nt < c[2]) else "many")
+            if ln.startswith("LEX OK"):
+                got = [int(x) for x in ln.split()[3:]]
+                res = "(0, [%s])" % "; ".join("(%d)" % g for g in got)
+                if exp != "ok" or got != vals:
+                    alarm("impl_violation", {"text": c[3], "len": c[2], "exact": exact, "type": "unsigned char" if c[1] in "bB" else "int", "api": "mjXUtil::ReadAttr"},
+                          expected=("rejected (%s): a token is not an integer literal within [%d, %d] / wrong arity" % (exp, lo, hi)) if exp != "ok" else "values %s" % vals,
+                          observed=ln[:200], signature={"site": "mjXUtil::ReadAttr", "class": "int-" + ("accepts-" + exp if exp != "ok" else "wrong-value")},
+                          theorem="C37_intlist_accepts_iff")
+            else:
+                msg = unesc(ln[8:])
+                code = 1 if "too much data" in msg else 2 if "does not have enough data" in msg else 3 if "bad format" in msg else 4 if "number is too large" in msg else 9
+                res = "(%d, [])" % code
+                if exp == "ok":
+                    alarm("impl_violation", {"text": c[3], "len": c[2], "exact": exact, "type": "unsigned char" if c[1] in "bB" else "int", "api": "mjXUtil::ReadAttr"},
+                          expected="accepted: integer literals within range and arity, values %s" % vals, observed=ln[:200],
+                          signature={"site": "mjXUtil::ReadAttr", "class": "int-rejects-valid"}, theorem="C37_intlist_accepts_iff")
+            coq_cases.append("(%d, %d, %s, %s, (@nil string), %s)" % (4 if c[1] in "bB" else 3, c[2], "true" if exact else "false", txt, res))
+            metas.append((c, ln))
+            continue
         if c[0] == "num":
             if ln.startswith("LEX OK"):
                 got = int(ln.split()[2])
@@ -1644,7 +1723,7 @@ def sanitizer_run(ctx, crash_docs, alarm):
     sub = crash_docs[:: max(1, len(crash_docs) // 700)]
     cmds = [("DOC %s" % ("L" if j % 2 == 0 else "C"), b) for j, (k, b) in enumerate(sub)]
     import subprocess
-    env = dict(os.environ, ASAN_OPTIONS="detect_leaks=0:abort_on_error=0:exitcode=97", UBSAN_OPTIONS="print_stacktrace=0:halt_on_error=1:exitcode=98")
+    env = dict(os.environ, ASAN_OPTIONS="detect_leaks=0:abort_on_error=0:exitcode=97:allocator_may_return_null=1", UBSAN_OPTIONS="print_stacktrace=0:halt_on_error=1:exitcode=98")
     inp = bytearray()
     for head, doc in cmds:
         inp += ("%s %d\n" % (head, len(doc))).encode() + doc + b"\n"
